@@ -459,6 +459,23 @@ func checkC06(r *vt.Run) {
 		focus := []string{"tick", "fileForced", "fileFrom1", "stuckOn", "h2dies", "abort", "advT", "masterDies"}
 		vBFS(r, "focus|", focus, depth+1, enabled, runner)
 		r.Bound("focus_alphabet_depth", depth+1)
+		// long histories: a request whose attempts keep failing, one attempt every 5 s, until well past
+		// the timeout (each attempt is younger than the timeout, the request is not)
+		for _, kind := range []string{"fileForced", "fileFrom1", "workerNoTransition"} {
+			hist := []string{kind, "stuckOn", "tick"}
+			for i := 0; i < cfg.TimeoutS/5+4 && cfg.TimeoutS <= 60; i++ {
+				hist = append(hist, "adv5", "tick")
+			}
+			if len(hist) > 3 {
+				envIdx++
+				if r.Mine(envIdx) {
+					cc := c06Case{Cfg: cfg, Hist: hist}
+					r.Crumb(cc)
+					c06Run(r, cc, true)
+					r.Count("long_failing_histories")
+				}
+			}
+		}
 		// b=1 environment deviation: another initiator files a request at every call boundary of a
 		// manager iteration that itself files or starts something
 		for _, hist := range [][]string{{"masterDies", "tick"}, {"masterDies", "adv5", "tick"}, {"tick"}, {"fileFrom1", "tick"}, {"h2dies", "tick"}} {
